@@ -27,7 +27,7 @@ inductive TS
   | dropped             -- destroyed un-run by `m_tasks.clear()`: the future is ready with `broken_promise`
   deriving DecidableEq, Repr
 
-/-- program counter of a worker thread (`worker_t::operator()`, parallel.cpp:24-69) -/
+/-- program counter of a worker thread (`worker_t::operator()`, parallel.cpp:33-80) -/
 inductive WPc
   | ready               -- about to lock and evaluate the wait predicate
   | sleeping            -- inside `m_condition.wait` (predicate was false)
@@ -74,16 +74,16 @@ def drop : TS → TS
   | x => x
 
 inductive Ev
-  | wTake (w : Nat)        -- worker: lock; predicate true, ¬stop; pop front; unlock; start running   (parallel.cpp:30-61,65)
-  | wSleep (w : Nat)       -- worker: lock held; predicate false; wait (releases the lock)            (parallel.cpp:35-44)
-  | wExit (w : Nat)        -- worker: lock held; predicate true, stop; clear; notify_all; unlock; exit (parallel.cpp:46-56)
-  | wRunEnd (w : Nat) (threw : Bool)  -- `task(m_tnum)` returned: future ready, outcome stored      (parallel.cpp:66-67)
+  | wTake (w : Nat)        -- worker: lock; predicate true, ¬stop; pop front; unlock; start running   (parallel.cpp:41-56,69-72,76)
+  | wSleep (w : Nat)       -- worker: lock held; predicate false; wait (releases the lock)            (parallel.cpp:45-56)
+  | wExit (w : Nat)        -- worker: lock held; predicate true, stop; clear; notify_all; unlock; exit (parallel.cpp:57-67)
+  | wRunEnd (w : Nat) (threw : Bool)  -- `task(m_tnum)` returned: future ready, outcome stored      (parallel.cpp:77-78)
   | wWake (w : Nat)        -- the wait returns (notified or spuriously) and re-acquires the lock
   | cPush (c : Nat) (ts : List Nat) (all : Bool)  -- client: lock; push tasks; unlock  (`enqueue`: one task; `map`: all tasks)
   | cNotify (c : Nat) (w : Option Nat)  -- `notify_one` (wakes the waiting worker `w` if any) / `notify_all`
   | cReturn (c : Nat)      -- client: all its futures are ready, the call returns (`section_t::block` + `~section_t`)
-  | dStop (c : Nat)        -- destructor: lock; `m_stop = true`; unlock                                (parallel.cpp:118-125)
-  | dJoined (c : Nat)      -- destructor: every `join` returned                                        (parallel.cpp:129-134)
+  | dStop (c : Nat)        -- destructor: lock; `m_stop = true`; unlock                                (parallel.cpp:124-131)
+  | dJoined (c : Nat)      -- destructor: every `join` returned                                        (parallel.cpp:135-140)
   | sStart (c n : Nat)     -- `map` takes the sequential path with `n` operator calls                   (parallel.h:239-262,300-323)
   | sOpBegin (c : Nat)     -- the caller starts operator call `i` with `tnum = 0`
   | sOpEnd (c : Nat) (threw : Bool)  -- it returns or throws; the first exception is kept, the loop goes on
@@ -197,12 +197,12 @@ def holdsExc (s : St) (t : Nat) : Bool :=
   | .dropped => true
   | _ => false
 
-/-- `section_t::block(raise)` (parallel.cpp:71-80) once every future is ready: the task whose exception leaves `map`
+/-- `section_t::block(raise)` (parallel.cpp:82-96) once every future is ready: the task whose exception leaves `map`
     (`future.get()` in index order rethrows the first stored exception; `future.wait()` never throws) -/
 def blockResult (s : St) (ts : List Nat) (raise : Bool) : Option Nat :=
   if raise then ts.find? (holdsExc s) else none
 
-/-! ### the ranges built by `map(elements, chunksize, op)` (parallel.h:279-300) -/
+/-! ### the ranges built by `map(elements, chunksize, op)` (parallel.h:305-309,333-338) -/
 
 /-- `for (begin = 0; begin < elements; begin += chunksize) (begin, min(begin + chunksize, elements))`, fuel-bounded -/
 def chunksFrom (n c : Nat) : Nat → Nat → List (Nat × Nat)
@@ -217,10 +217,10 @@ def rangeList (b e : Nat) : List Nat := (List.range (e - b)).map (· + b)
 /-- the operator calls of `map(elements, op)` seen as ranges `[index, index+1)` -/
 def elemRanges (n : Nat) : List (Nat × Nat) := (List.range n).map (fun i => (i, i + 1))
 
-/-- `size() == 1 || elements <= 1` (parallel.h:232) -/
+/-- `size() == 1 || elements <= 1` (parallel.h:239) -/
 def seqPathElems (size n : Nat) : Bool := size == 1 || decide (n ≤ 1)
 
-/-- `size() == 1 || chunksize >= elements` (parallel.h:278) -/
+/-- `size() == 1 || chunksize >= elements` (parallel.h:300) -/
 def seqPathChunk (size n c : Nat) : Bool := size == 1 || decide (c ≥ n)
 
 /-! ### trace layer: raw hook events → lock discipline → folded model events → path of `step` -/
@@ -403,7 +403,7 @@ def Ck.onEvent (calls : Array Call) (k : Ck) (e : Raw) : Except Err Ck := do
       | some cid => k.doReturn calls e.a cid e.b true
       | none => .error (.lock s!"call {e.a} waited before it was made")
     else bad
-  -- worker (parallel.cpp:24-69)
+  -- worker (parallel.cpp:33-80)
   | .wPre w => if e.kind = K.lockAcquired ∧ e.b = w then do pure ((← k.acquire tid).setTpc tid (.wLocked w)) else bad
   | .wLocked w | .wWaiting w =>
     if e.kind = K.pred ∧ e.b = w then do
@@ -457,7 +457,7 @@ def Ck.onEvent (calls : Array Call) (k : Ck) (e : Raw) : Except Err Ck := do
   | .wClr2 w => if e.kind = K.lockRelease ∧ e.b = w then do pure ((← k.release tid).setTpc tid (.wClr3 w)) else bad
   | .wClr3 w => if e.kind = K.workerExit ∧ e.b = w then pure (k.setTpc tid .wGone) else bad
   | .wGone => bad
-  -- enqueue (parallel.h:84-100)
+  -- enqueue (parallel.h:81-97)
   | .eq0 call => if e.kind = K.preLock then pure (k.setTpc tid (.eq1 call)) else bad
   | .eq1 call => if e.kind = K.lockAcquired then do pure ((← k.acquire tid).setTpc tid (.eq2 call)) else bad
   | .eq2 call =>
@@ -470,7 +470,7 @@ def Ck.onEvent (calls : Array Call) (k : Ck) (e : Raw) : Except Err Ck := do
   | .eq3 call cid => if e.kind = K.lockRelease then do pure ((← k.release tid).setTpc tid (.eq4 call cid)) else bad
   | .eq4 _ cid =>
     if e.kind = K.notifyOne then do pure ((← k.emit (.cNotify cid (pickSleeping k.s))).setTpc tid .idle) else bad
-  -- map (parallel.h:229-263, 275-309)
+  -- map (parallel.h:235-285, 294-348)
   | .mp0 call =>
     if e.kind = K.mapEnter then
       match calls[call]? with
@@ -550,7 +550,7 @@ def Ck.onEvent (calls : Array Call) (k : Ck) (e : Raw) : Except Err Ck := do
       if e.b = 0 then pure (k.setTpc tid .idle)
       else .error (.path s!"call {call}: map_return although an exception leaves (code {e.b})")
     else bad
-  -- destructor (parallel.cpp:116-135)
+  -- destructor (parallel.cpp:122-141)
   | .ds0 => if e.kind = K.preLock then pure (k.setTpc tid .ds1) else bad
   | .ds1 => if e.kind = K.lockAcquired then do pure ((← k.acquire tid).setTpc tid .ds2) else bad
   | .ds2 =>
